@@ -1,4 +1,4 @@
 From Coq Require Extraction ExtrOcamlBasic.
 From RdpV Require Import Base GuiLoop.
 Extraction Language OCaml.
-Extraction "../ocaml/gui/model.ml" init env_step quiesce fuel_of original repaired evs_of err.
+Extraction "../ocaml/gui/model.ml" init env_step tstep quiesce fuel_of original repaired evs_of released mutex_blocked settled err.
